@@ -4,7 +4,8 @@ Histories of user queries whose attempts are answered, refused or timed out, so 
 accumulate and lose consecutive failures and the sorted list reorders; clock advances on both
 sides of the retry delay; server-list edits (only add / only remove / reverse, rotate, swap of the kept
 servers / mix / disjoint replacement / duplicates / empty list) between queries AND while
-attempts are in flight, with and without prior failures on the kept servers.  1..8 servers, rotation on/off, failover chance 0 / 1 (always) / small / default,
+attempts are in flight, with and without prior failures on the kept servers; queries during which the
+connection of the probe copy cannot be opened (event p), followed by advances past the retry delay and fresh queries.  1..8 servers, rotation on/off, failover chance 0 / 1 (always) / small / default,
 retry delay 0 / small / large.
 """
 
@@ -69,6 +70,8 @@ def gen_case(rng, tier):
     else:
         chance = rng.choice([0, 1, 1, 1, 2, 3, 10])
         delay = rng.choice([0, 0, 100, 5000, 5000, 30000, 120000])
+        if rng.random() < 0.3:
+            chance, delay = 1, rng.choice([0, 100, 5000])     # probes at every opportunity
         units.append("ch=%d" % chance)
         units.append("dl=%d" % delay)
     units.append("seed=%d" % rng.randrange(1, 1000000))
@@ -78,14 +81,20 @@ def gen_case(rng, tier):
     p_edit_inflight = rng.choice([0.0, 0.1, 0.25])
     evs = []
     pending_guess = 0
+    # probe liveness: the connection of a probe copy cannot be opened (event p); after the retry
+    # delay the server must be probed again
+    pfail = len(ids) >= 2 and rng.random() < 0.3
+    if pfail and rng.random() < 0.6:
+        evs += ["q", rng.choice(["s", "r", "i"]), "a", "w%d" % rng.choice([delay, delay + 1, 60000]), "p", "a", "a",
+                "w%d" % rng.choice([delay, delay, delay + 1, max(0, delay - 1), 60000]), rng.choice(["q", "p"]), "a", "a"]
     for _ in range(nev):
         r = rng.random()
         if pending_guess == 0:
             if r < 0.6:
-                evs.append("q")
+                evs.append("p" if pfail and rng.random() < 0.5 else "q")
                 pending_guess = 1 + (1 if rng.random() < 0.3 else 0)
                 if rng.random() < 0.15:
-                    evs.append("q")                   # several user queries in flight
+                    evs.append("p" if pfail and rng.random() < 0.5 else "q")   # several user queries in flight
                     pending_guess += 1
             elif r < 0.78:
                 # advance around the retry delay
